@@ -5,19 +5,33 @@
    Proved here, for ALL documents (valid program or not):
      C14_hover_answer         shape of every hover answer: an identifier token under the cursor, exactly
                               its range, code block of the Display of an entry named like it + doc block
-     C14_hover_entry          which table that entry comes from
+     C14_hover_entry          which table that entry comes from (local table of the context procedure first,
+                              unless the identifier stands in a global position; then the global table)
+     C14_global_position      what DocumentCursor::is_global_position computes: the last non-comment token
+                              in front of the first token under the cursor is `proc`, `type`, `:` or `of`
      C14_hover_none(_first)   no identifier under the cursor => no answer
      C14_hover_total          no panic under the explicit predicate [cursor_pre]
+     C14_hover_at             hover computed on any document whose tokens are in text order
      C14_sighelp_answer       shape of every signature-help answer: a call statement of the tree around
                               the cursor, the callee's procedure entry, one label per parameter
      C14_sighelp_param_count  one parameter entry per parameter
      C14_sighelp_active       active parameter = number of commas of the call statement in front of the
                               cursor (documents built by AnalyzedSource::new)
      C14_count_commas         the loop-with-break of get_active_param on a slice in text order
-   NOT proved: the full functional property [C14_hover_full_statement] / [C14_sighelp_full_statement]
-   (for every identifier occurrence / argument list of every valid program).  The hover half is in
-   fact REFUTED by the model - [C14_hover_full_refuted], known finding C14-hover-local-before-global;
-   outside that class both halves are validated by correspondence + oracle. *)
+   Proved for every VALID program in every layout (the hover half of the functional property):
+     C14_hover_valid          for every abstract program p of the grammar whose mandated tree is well-typed
+                              (Spec/Typing.v), every text that lexes to p's tokens, every identifier
+                              occurrence and every cursor position inside it: hover = Display of the entry
+                              the occurrence is bound to under SPL scoping + its documentation block, over
+                              exactly the identifier's range
+     C14_hover_valid_text     the same for every rendering (Proofs/RenderProofs.v) of such a program
+   NOT proved: [C14_sighelp_full_statement] (signature help inside every argument list of every valid
+   program: validated by correspondence + oracle only), and [C14_hover_full_statement] in its formulation
+   over "documents without diagnostics" (it needs, on top of C14_hover_valid, the completeness of the front
+   end: no diagnostic => the text is a layout of a well-typed abstract program).
+   History: before /repo b909979 the hover half was REFUTED by the model (hover looked every identifier of a
+   procedure up in the local table first, also the procedure's own name and type names: defect
+   C14-hover-local-before-global, repaired; witnesses in C14_global_position_ex and corpus/C14). *)
 From Coq Require Import String.
 From Spl Require Import Props.C03.
 From Spl Require Import Proofs.GrammarProofs Spec.Typing Proofs.TypingProofs Proofs.RenderProofs Proofs.PipelineText.
